@@ -301,6 +301,7 @@ func (i *interpreter) newInput(name, kind string, s tsort) *term {
 	full := i.ps.freshName(name)
 	t := i.ps.tt.mkVar(smtIdent(full), s)
 	i.ps.vars = append(i.ps.vars, inputVar{Name: full, Kind: kind, t: t})
+	i.solver.define(t) // declared at once: cvc5 refuses get-value on symbols declared after check-sat
 	return t
 }
 
